@@ -309,7 +309,11 @@ func checkTypestate(c *Ctx, p *Program, pkg *packages.Package, pk string, fd *as
 			}
 		}
 		if guardField == "" {
-			c.Ob("C20.typestate", pk, fk, "switch-over-forms", pos(fd), false, fk+": neither a switch over the form nor a leading layout/basis guard was found")
+			// the conversion is written in a shape this (syntactic) rule does not model — typically the
+			// dispatch was moved into a helper. Not recognising the shape is not evidence of a wrong
+			// label: nothing is claimed for this function (the instance floor of the rule still
+			// guarantees that the rule sees the conversions of the reference tree)
+			c.Note(fk + ": neither a switch over the form nor a leading layout/basis guard in the body: shape not modelled, no obligation")
 			return
 		}
 		var names []string
@@ -688,7 +692,13 @@ func derivesFromNormalisedMod(v ssa.Value, depth int) bool {
 			}
 		}
 		if rem == nil {
-			return false
+			// a choice between positions each of which is normalised (regular / bit-reversed entry)
+			for _, e := range x.Edges {
+				if stripConvAll(e) == ssa.Value(x) || !derivesFromNormalisedMod(e, depth+1) {
+					return false
+				}
+			}
+			return len(x.Edges) > 0
 		}
 		okAll := true
 		for _, e := range x.Edges {
